@@ -6,6 +6,7 @@ _make_section/_make_segment and link validators; 6 lookup/enumeration agreement;
 G-LIT on the anchored files.
 """
 import ast
+from sa.canon import U
 from sa.world import get_world
 from sa import elfconf, layout, dispatch, expr, paths, literals
 from sa.report import AnalysisError
@@ -153,7 +154,7 @@ def check_ext_numbering(ctx, w, fn):
                 ok = _is_fallback(ret, fallback, f.node)
             else:
                 ok = expr.nfs(ret, expr.FEnv(f.node)) == field and not _has_call(ret)
-            got_desc.append(ast.unparse(ret) if ret is not None else 'None')
+            got_desc.append(U(ret) if ret is not None else 'None')
             good = good and ok
         ctx.ob('E-ii', construct, '%s=%#x' % (field, pt), good,
                msg='extended-numbering predicate/fallback deviates from gABI (%s escape %#x -> section header 0 %s)'
@@ -169,7 +170,7 @@ def _subst_consts(t, cvals):
     class R(ast.NodeTransformer):
         def visit_Attribute(self, n):
             try:
-                d = ast.unparse(n)
+                d = U(n)
             except Exception:
                 d = None
             if d in cvals:
@@ -227,7 +228,7 @@ def check_stride(ctx, w, fn, off, entsize, struct):
             cs = [expr.cond_str(t, env, negate=not pol) for t, pol in p.conds()]
             if any(want_atom in c for c in cs):
                 exc = p.end[1]
-                if exc is not None and 'ELFError' in ast.unparse(exc):
+                if exc is not None and 'ELFError' in U(exc):
                     found = True
     ctx.ob('I-STRIDE', f.construct, 'entry-size guard', found,
            msg='no ELFError guard comparing %s with %s.sizeof()' % (entsize, struct),
@@ -352,7 +353,7 @@ def check_link_validators(ctx, w):
         ok = False
         got = []
         for p in paths.func_paths(f.node):
-            if p.end[0] == 'raise' and p.end[1] is not None and 'ELFError' in ast.unparse(p.end[1]):
+            if p.end[0] == 'raise' and p.end[1] is not None and 'ELFError' in U(p.end[1]):
                 cs = [expr.cond_str(t, env, negate=not pol) for t, pol in p.conds()]
                 got.append(cs)
                 if cs == [want]:
@@ -374,7 +375,7 @@ def check_name_map(ctx, w):
     for lp in loops:
         it = lp.iter
         if isinstance(it, ast.Call) and isinstance(it.func, ast.Name) and it.func.id == 'enumerate':
-            src = ast.unparse(it.args[0]) if it.args else ''
+            src = U(it.args[0]) if it.args else ''
             start_ok = len(it.args) == 1 and not it.keywords or \
                 (len(it.args) == 2 and isinstance(it.args[1], ast.Constant) and it.args[1].value == 0)
             if src != 'self.iter_sections()':
@@ -391,11 +392,11 @@ def check_name_map(ctx, w):
             for st in lp.body:
                 if isinstance(st, ast.Assign) and len(st.targets) == 1 and isinstance(st.targets[0], ast.Subscript):
                     t = st.targets[0]
-                    if ast.unparse(t.value) == 'self._section_name_map' and ast.unparse(t.slice) == svar + '.name' and \
+                    if U(t.value) == 'self._section_name_map' and U(t.slice) == svar + '.name' and \
                             isinstance(st.value, ast.Name) and st.value.id == ivar:
                         ok = True
                     else:
-                        why = 'stores %s' % ast.unparse(st)
+                        why = 'stores %s' % U(st)
     ctx.ob('W-MAP', f.construct, 'map[name] = enumeration index', ok, msg='name map not filled from the enumeration index: ' + why,
            line=f.node.lineno)
     # lookups consult only the map, behind the lazy-init guard
@@ -410,7 +411,7 @@ def check_name_map(ctx, w):
                 evs = p.events
                 init = False
                 for ev in evs:
-                    if ev[0] == 'stmt' and 'self._make_section_name_map()' in ast.unparse(ev[1]):
+                    if ev[0] == 'stmt' and 'self._make_section_name_map()' in U(ev[1]):
                         init = True
                     if ev[0] == 'cond' and expr.cond_str(ev[1], None, negate=not ev[2]) == expr.spec_cond('_section_name_map is not None'):
                         init = True
@@ -440,9 +441,9 @@ def check_name_map(ctx, w):
         loops = [n for n in ast.walk(g.node) if isinstance(n, ast.For)]
         ok = False
         for lp in loops:
-            if ast.unparse(lp.iter) == 'range(self.%s())' % num and isinstance(lp.target, ast.Name):
+            if U(lp.iter) == 'range(self.%s())' % num and isinstance(lp.target, ast.Name):
                 i = lp.target.id
-                body = ast.unparse(lp)
+                body = U(lp)
                 if 'self.%s(%s)' % (get, i) in body:
                     ys = [n for n in ast.walk(lp) if isinstance(n, ast.Yield)]
                     ok = len(ys) == 1
@@ -480,9 +481,9 @@ def check_identify(ctx, w):
     # sequence of stream operations
     ops = []
     for n in sorted([x for x in ast.walk(f.node) if isinstance(x, ast.Call) and isinstance(x.func, ast.Attribute) and
-                     x.func.attr in ('seek', 'read') and 'stream' in ast.unparse(x.func.value)],
+                     x.func.attr in ('seek', 'read') and 'stream' in U(x.func.value)],
                     key=lambda x: (x.lineno, x.col_offset)):
-        ops.append((n.func.attr, ast.unparse(n.args[0]) if n.args else ''))
+        ops.append((n.func.attr, U(n.args[0]) if n.args else ''))
     ctx.ob('W-IDENT', f.construct, 'reads bytes 0-3,4,5', ops == [('seek', '0'), ('read', '4'), ('read', '1'), ('read', '1')],
            msg='identification no longer reads magic at 0 and the class/data bytes at 4 and 5', got=ops,
            expected=[('seek', '0'), ('read', '4'), ('read', '1'), ('read', '1')], line=f.node.lineno)
@@ -511,11 +512,11 @@ def check_identify(ctx, w):
         if chains:
             for b in chains[0]:
                 if b.is_else:
-                    else_raises = any(isinstance(s, ast.Raise) and s.exc is not None and 'ELFError' in ast.unparse(s.exc)
+                    else_raises = any(isinstance(s, ast.Raise) and s.exc is not None and 'ELFError' in U(s.exc)
                                       for s in b.body)
                     continue
                 for st in b.body:
-                    if isinstance(st, ast.Assign) and ast.unparse(st.targets[0]) == 'self.' + attr and \
+                    if isinstance(st, ast.Assign) and U(st.targets[0]) == 'self.' + attr and \
                             isinstance(st.value, ast.Constant):
                         for k in b.keys:
                             got[k] = st.value.value
